@@ -101,7 +101,17 @@ class C01(Prop):
                         style = 0.0       # let detection settle on a well-formed message
                     if style < 0.62 and outstanding:
                         key = rng.choice(list(outstanding))
-                        if outstanding[key] == 'one':
+                        if outstanding[key] == 'one' and pname != 'v1' and rng.random() < 0.08:
+                            # a single request answered by a one-element batch: not a response to anything sent
+                            payload = response_payload(rng, pname, enc_id(rng, key[0]), ['res', 5])
+                            ops.append(['receive', list(json.dumps([payload]).encode())])
+                            expects.append(['reject'])
+                        elif outstanding[key] == 'many' and len(key) == 1 and rng.random() < 0.3:
+                            # a batch of one request answered by an un-batched response object
+                            payload = response_payload(rng, pname, enc_id(rng, key[0]), ['res', 5])
+                            ops.append(['receive', list(json.dumps(payload).encode())])
+                            expects.append(['reject'])
+                        elif outstanding[key] == 'one':
                             outcome = rng.choice([['res', rng.choice([None, 5, 'ok', [1]])], ['err', 7, 'bad'], ['malformed', rng.randrange(3)]])
                             payload = response_payload(rng, pname, enc_id(rng, key[0]), outcome)
                             ops.append(['receive', list(json.dumps(payload).encode())])
